@@ -183,6 +183,16 @@ fn write_file(root: &str, p: &str, c: &[u8], r: &mut Rng) {
 /// the same path when there is one (what `cp -p`, `touch -r`, `rsync -t`, `tar x` do): outcomes must not depend on it.
 fn write_file2(root: &str, other: Option<&str>, p: &str, c: &[u8], r: &mut Rng, copy_other: bool) {
     let full = format!("{}/{}", root, p);
+    // the user replaces a directory by a file of that name, or a file by a directory (path `d` vs `d/h`)
+    if std::fs::symlink_metadata(&full).map(|m| m.is_dir()).unwrap_or(false) {
+        let _ = std::fs::remove_dir_all(&full);
+    }
+    let mut anc = std::path::Path::new(&full).parent();
+    while let Some(a) = anc {
+        if a.as_os_str().len() <= root.len() { break; }
+        if std::fs::symlink_metadata(a).map(|m| m.is_file()).unwrap_or(false) { let _ = std::fs::remove_file(a); }
+        anc = a.parent();
+    }
     std::fs::create_dir_all(std::path::Path::new(&full).parent().unwrap()).unwrap();
     std::fs::write(&full, c).unwrap();
     // mtimes are randomised independently of contents
@@ -226,6 +236,7 @@ pub fn run_history(id: usize, env: &Env, init_a: &Tree, init_b: &Tree, ops: &[Op
         let mut plan = "-".to_string();
         match op {
             Op::Write(side, p, c, pm) => {
+                if p == "d" { oracle_only = true; } // a file named like the directory of d/h, d/k: outside the flat-name model
                 write_file2(if *side { &env.a } else { &env.b }, Some(if *side { &env.b } else { &env.a }), p, c, r, *pm);
                 contents.insert(c.clone());
                 op_strs.push(format!("{}{}:{}:{}", if *pm { "M" } else { "W" }, if *side { "A" } else { "B" }, hex(p.as_bytes()), hex(c)));
@@ -332,7 +343,8 @@ pub fn run_history(id: usize, env: &Env, init_a: &Tree, init_b: &Tree, ops: &[Op
                         }
                     }
                     prev_end = Some((after_a.clone(), after_b.clone()));
-                } else if exit == "IOERR" && faultk.is_some() {
+                } else if exit == "IOERR" && (faultk.is_some() || before_a.keys().any(|p| before_b.keys().any(|q| p.starts_with(&format!("{}/", q)) || q.starts_with(&format!("{}/", p))))) {
+                    // (also: the same name is a file on one side and a directory on the other - the tool refuses the run)
                     // a run stopped by the injected fault is not a completed run: nothing may have been lost by it
                     for (side_a, before, other) in [(true, &before_a, &before_b), (false, &before_b, &before_a)] {
                         for (p, c) in before {
@@ -366,7 +378,7 @@ pub fn run_history(id: usize, env: &Env, init_a: &Tree, init_b: &Tree, ops: &[Op
     }
     // ---- C06: swapping which directory is named first yields the same bytes at every path
     // (not for histories with an injected I/O fault: the k-th file-system call of the swapped run is another call)
-    if swap_check && !ops.iter().any(|o| matches!(o, Op::RunFault(_))) {
+    if swap_check && !oracle_only && !ops.iter().any(|o| matches!(o, Op::RunFault(_))) {
         let fa = read_tree(&env.a);
         let fb = read_tree(&env.b);
         let env2 = Env::new(&env.copia, &format!("{}-swap", env.dir));
@@ -534,7 +546,7 @@ fn gen_history(r: &mut Rng, pool: &[Vec<u8>], paths: &[&str]) -> (Tree, Tree, Ve
     }
     let class: &'static str;
     let mut ops = vec![];
-    match r.below(8) {
+    match r.below(9) {
         0 => {
             class = "directed:delete-both-recreate";
             let p = paths[0].to_string();
@@ -582,6 +594,17 @@ fn gen_history(r: &mut Rng, pool: &[Vec<u8>], paths: &[&str]) -> (Tree, Tree, Ve
             b.remove(&p);
             ops = vec![Op::Write(true, p.clone(), pool[1].clone(), false), Op::Run, Op::Write(side, p.clone(), pool[3].clone(), false),
                        Op::RunFault(1 + r.below(10) as u32), Op::Run, Op::Run];
+        }
+        6 => {
+            // the same name is a directory on one side and becomes a file on the other, with new and edited files under
+            // the directory: whatever the run does (it refuses), nothing may be lost
+            class = "directed:file-vs-directory";
+            a.clear();
+            b.clear();
+            let side = r.chance(1, 2);
+            ops = vec![Op::Write(true, "d/h".into(), pool[1].clone(), false), Op::Write(true, "d/k".into(), pool[2].clone(), false), Op::Run,
+                       Op::Write(side, "d".into(), pool[3].clone(), false), Op::Write(!side, "d/h".into(), pool[3].clone(), false), Op::Write(!side, "d/new".into(), pool[1].clone(), false),
+                       Op::Run, Op::Run];
         }
         2 => {
             class = "directed:fault-first";
